@@ -537,3 +537,11 @@ package bchutil
 //@ func bchutil.NewBlockFromBlockAndBytes
 //@   ensures result != nil && fresh(result) && result.msgBlock == msgBlock && sameobj(result.serializedBlock, serializedBlock) && len(result.serializedBlock) == len(serializedBlock) && len(result.transactions) == 0 && !result.txnsGenerated && result.blockHash == nil && result.blockHeight == -1
 //@   modifies nothing
+
+//@ func bchutil.NewAddressPubKeyHash
+//@   requires net != nil
+//@   ensures $calls_newAddressPubKeyHash == 1
+//@   ensures len(pkHash) != 20 ==> result0 == nil && err != nil
+//@   ensures len(pkHash) == 20 ==> err == nil && result0 != nil && fresh(result0) && sameobj(result0.prefix, net.CashAddressPrefix) && result0.prefix.off == net.CashAddressPrefix.off && len(result0.prefix) == len(net.CashAddressPrefix)
+//@   ensures len(pkHash) == 20 ==> forall k :: 0 <= k && k < 20 ==> result0.hash[k] == pkHash[k]
+//@   modifies nothing
